@@ -91,6 +91,9 @@ func c11World(tp *Tape, env *Env) (*Plan, *Violation) {
 			ops = append(ops, Op{K: "snapshot", Slot: slots})
 			slots++
 		}
+		if tp.Chance(4, "refusedrestore") {
+			ops = append(ops, Op{K: "restore_refused"}) // a restore the runner refuses (unknown node): nothing changes
+		}
 		if slots > 0 && tp.Chance(8, "restore") {
 			ops = append(ops, Op{K: "restore", Slot: tp.Int(0, slots-1, "slot")})
 		}
@@ -159,6 +162,14 @@ func c11Exec(plan *Plan, st *Stats) *Violation {
 		op := &plan.Ops[i]
 		ev0 := d.h.nEvents()
 		switch op.K {
+		case "restore_refused":
+			if err, pv := safeRestore(d, &ysgo.Snapshot{CurrentNode: "No such node", VisitedNodes: map[string]int{"No such node": 3}}); err == nil || pv != nil {
+				return nil // C07's business
+			}
+			if st != nil {
+				st.probe("restore_refused_then_counting_goes_on")
+			}
+			continue
 		case "snapshot":
 			s := d.h.dr.Snapshot()
 			slots[op.Slot] = saved{s, canonSnap(s)}
